@@ -158,6 +158,7 @@ def expectedTypeDefs : List (String × String) := [
   ("TypeMemberNames", "newArrayType2(TypeMemberName)"),
   ("TypeAttributes", "NewHashType(TypeMemberName, DefaultNotUndefType(), nil)"),
   ("TypeParameters", "NewHashType(TypeMemberName, DefaultNotUndefType(), nil)"),
+  ("TypeFunctions", "NewHashType(newVariantType2(TypeMemberName, newPatternType2(NewRegexpTypeR(regexp.MustCompile(`^\\[]$`)))), DefaultNotUndefType(), nil)"),
   ("TypeEquality", "newVariantType2(TypeMemberName, TypeMemberNames)")]
 
 /-- decidable side condition: no member is listed twice (the original defect), every member is optional, the seven members an
@@ -171,6 +172,7 @@ def schemaOKb (s : Schema) : Bool :=
   s.memberTy "type_parameters" == some .parameters &&
   s.memberTy "attributes" == some .attributes &&
   s.memberTy "constants" == some .constants &&
+  s.memberTy "functions" == some .functions &&
   s.memberTy "equality" == some .equality &&
   s.memberTy "equality_include_type" == some .boolean &&
   s.memberTy "serialization" == some .memberNames &&
